@@ -38,5 +38,19 @@ def structLayout (fields : List (Nat × Nat)) : List Nat × Nat × Nat :=
   let r := fields.foldl step ([], 0, 1)
   (r.1, roundUp r.2.2 r.2.1, r.2.2)
 
+/-- (alignment, size) encase assigns to a derived struct, by name, from the struct items in scope
+(fuel bounds the nesting depth; the relational form without fuel is `Encase.Meta` in Props/C10Struct) -/
+def structMeta (structs : List RStruct) : Nat → String → Option (Nat × Nat)
+  | 0, _ => none
+  | fuel + 1, name =>
+    match structs.find? fun s => s.name == name with
+    | none => none
+    | some s =>
+      let metas := s.fields.map fun f => alignSizeOf (structMeta structs fuel) f.ty
+      if metas.all (·.isSome) then
+        let l := structLayout (metas.map fun x => x.getD (1, 0))
+        some (l.2.2, l.2.1)
+      else none
+
 end Encase
 end WgslVerif
